@@ -82,10 +82,15 @@ func main() {
 	sum := vhlib.NewSummary("one evaluation = one (operator, numeric type, literal, range) call of a real range checker / one literal x range entry x operator call of checkRangeIndexHelper / one updateRangeIndex fold / one bloom token insertion / one block-pruning call, or one (event set, physical layout, query) answer of the real system compared with the oracle computed from the events; distinct = distinct input tuple, non-trivial = the expected answer is not empty (end to end) or the input has more than one value (folds)")
 	rng := vhlib.NewRng(cfg.Seed*0x9E3779B97F4A7C15 + 3)
 	t0 := time.Now()
-	directCases(cfg, sum, rng.Fork())
+	rDirect, rMeta := rng.Fork(), rng.Fork()
+	rTime := rng.Fork() // forked after the earlier streams: their inputs stay what they were
+	if only := os.Getenv("C03_ONLY"); only == "" || only == "direct" {
+		directCases(cfg, sum, rDirect)
+	}
+	timeFilterCases(cfg, sum, rTime)
 	sum.Notes = append(sum.Notes, fmt.Sprintf("direct matrix: %.1fs", time.Since(t0).Seconds()))
 	t1 := time.Now()
-	runMeta(cfg, sum, rng.Fork())
+	runMeta(cfg, sum, rMeta)
 	sum.Notes = append(sum.Notes, fmt.Sprintf("metamorphic runs: %.1fs", time.Since(t1).Seconds()),
 		"floats are dyadic rationals of small magnitude (exact in binary64); the model treats float64 as exact rationals",
 		"main stream: dense columns, one type per column, no decimal literal against int columns, no free-text NOT, no sub-phrase; known classes run in their own streams")
